@@ -246,9 +246,16 @@ def trace_int(v):
     try:
         return int(v)
     except ValueError:
-        m = re.match(r"'(.)'", v)
-        if m:
-            return ord(m.group(1))
+        if v.startswith("'"):
+            import ast
+            try:
+                c = ast.literal_eval(v)
+                return ord(c) if len(c) == 1 else 0
+            except Exception:
+                m = re.match(r"'\\(\d+)'", v)       # octal escapes such as '\377'
+                if m:
+                    return int(m.group(1), 8)
+                return ord(v[1]) if len(v) > 2 else 0
         return int(v, 0)
 
 
